@@ -226,7 +226,15 @@ func genC14(t *rapid.T) (*C14Config, []string) {
 	c := &C14Config{Missing: -1, Dir: -1}
 	var labels []string
 	// program and inputs
-	switch rapid.IntRange(0, 4).Draw(t, "source") {
+	switch rapid.IntRange(0, 5).Draw(t, "source") {
+	case 5:
+		// degenerate program texts: empty, blank, comment only, empty rules
+		c.Prog = ast.BS(rapid.SampledFrom([]string{"", "", " ", "\n", "\n\n", "# only a comment", "# c\n", "\t\n# c\n\n", "BEGIN { }", "{ }", "END { }", "{ }\n", "$", "1"}).Draw(t, "degenerate"))
+		n := rapid.IntRange(1, 3).Draw(t, "ndegfiles")
+		for k := 0; k < n; k++ {
+			c.Files = append(c.Files, DFile{Name: "f", Docs: []string{rapid.SampledFrom([]string{`[1,2]`, `{"a":1}`, `"s"`, `[]`, `{"a":{"b":[3]}}`}).Draw(t, "degdoc")}})
+		}
+		labels = append(labels, "degenerate-program")
 	case 0, 1:
 		d, _ := genC02(t)
 		c.Prog = ast.BS(d.Source())
@@ -303,7 +311,7 @@ func genC14(t *rapid.T) (*C14Config, []string) {
 
 func TestC14(t *testing.T) {
 	rec := start(t, "C14", "exploration",
-		"configurations: program given inline or with -f FILE x input on stdin / one named file / 2-3 named files / a missing file / a directory among them x 0-2 -r selectors x -o absent / - / a path / a path in a missing directory; programs and inputs from the C02 / C09 / C07 / C11 generators, including runs ending in each error kind; each configuration is materialised in a private directory. Oracles: (1) stdout of the binary = stdout of lang.EvalProgram (+ GetRootJson text for -o -), exit status 0 iff the library returned nil and -o could be satisfied, otherwise 1 with a diagnostic; (2) -f == inline; (3) stdin == the same bytes in a named file for programs not printing $file; (4) -o FILE bytes == what -o - prints after the program's own output; (5) file and selector order through the $file / $ traces of the C02 programs; (6) -r E P == BEGINFILE { $ = E } P for one selector and programs without BEGINFILE / ENDFILE rules; (7) missing input, directory input, -o with several inputs, unwritable -o path: non-zero status and a diagnostic, never a stack trace. Non-trivial: >= 2 of {-f, >= 2 files, >= 1 selector, -o} or an error path. distinct = distinct configuration.")
+		"configurations: program given inline or with -f FILE x input on stdin / one named file / 2-3 named files / a missing file / a directory among them x 0-2 -r selectors x -o absent / - / a path / a path in a missing directory; programs and inputs from the C02 / C09 / C07 / C11 generators, including runs ending in each error kind, and degenerate program texts (empty, blank, comment only, empty rules, a bare pattern); each configuration is materialised in a private directory. Oracles: (1) stdout of the binary = stdout of lang.EvalProgram (+ GetRootJson text for -o -), exit status 0 iff the library returned nil and -o could be satisfied, otherwise 1 with a diagnostic; (2) -f == inline; (3) stdin == the same bytes in a named file for programs not printing $file; (4) -o FILE bytes == what -o - prints after the program's own output; (5) file and selector order through the $file / $ traces of the C02 programs; (6) -r E P == BEGINFILE { $ = E } P for one selector and programs without BEGINFILE / ENDFILE rules; (7) missing input, directory input, -o with several inputs, unwritable -o path: non-zero status and a diagnostic, never a stack trace. Non-trivial: >= 2 of {-f, >= 2 files, >= 1 selector, -o} or an error path. distinct = distinct configuration.")
 	defer rec.Finish()
 	rec.Assume("the library interpreter (lang.EvalProgram + GetRootJson) is the reference for what the binary must print; its own correctness is the subject of the other properties")
 	rec.Replayer("config", func(raw json.RawMessage) error {
